@@ -1,4 +1,5 @@
 import Driver.Proto
+import Driver.Ops.Read
 import ZipVerif.Model.ZipCrypto
 /- C15 ops: `zc.*` (ZipCrypto cipher, writer, reader, open-time decisions). -/
 
@@ -35,6 +36,30 @@ def zcPw (a : Args) : Option (Option Bytes) :=
 
 def zcFlag (a : Args) (k : String) : Option Bool := (a.nat? k).map (· != 0)
 
+/-- The decoders are parameters of the model: a table of (method, CRC-32 and length of the input) →
+result, computed by the harness with the codec libraries directly. -/
+def zcDecoder (rows : List CodecRow) (m : Nat) (raw : Bytes) : Out Bytes :=
+  if m == 0 then .ok raw else
+  let c := (Spec.Crc32.crc32 raw).toNat
+  match rows.find? (fun r => r.method == m && r.rawCrc == c && r.rawLen == raw.length) with
+  | some r => r.result
+  | none => .panic "codec-table-miss"
+
+def zcMethodNum : String → Option Nat
+  | "stored" => some 0 | "deflated" => some 8 | "bzip2" => some 12 | "zstd" => some 93 | _ => none
+
+def zcSame (data : Bytes) : Out (Option Bytes) → String
+  | .ok (some d) => if d = data then "same" else "diff"
+  | .ok none => "invalidpw"
+  | .err e => Out.className e
+  | .panic _ => "panic"
+
+def zcOpened : Out (Option Bytes) → String
+  | .ok (some _) => "opened"
+  | .ok none => "invalidpw"
+  | .err e => Out.className e
+  | .panic _ => "panic"
+
 def opZc (op : String) (a : Args) : Option String := do
   match op with
   | "zc.encrypt" =>
@@ -69,33 +94,39 @@ def opZc (op : String) (a : Args) : Option String := do
       | some p => readStoredEntry (some p) enc dd (UInt32.ofNat crc) (UInt16.ofNat t) raw
     some (zcOutOpt "invalidpw" r)
   | "zc.arch" =>
+    -- Everything is computed by the model: the stored bytes by the model WRITER from the compressor's
+    -- output (`comp`, a parameter supplied by the harness's direct codec call; the content itself for
+    -- Stored), and all four readings by the model READER on those model-built bytes (decoders through
+    -- the codec table `codec=`; a missing row is a `panic`, never a guess).
     let pw ← a.hex? "pw"; let data ← a.hex? "data"; let wrong ← a.hex? "wrong"
-    let m ← a.get? "m"
+    let m ← zcMethodNum (← a.get? "m")
+    let comp ← if m == 0 then some data else a.hex? "comp"
+    let rows := parseCodec ((a.get? "codec").getD "-")
+    let pm ← a.nat? "pm"; let praw ← a.hex? "praw"; let pdata ← a.hex? "pdata"
     let crc := Spec.Crc32.crc32 data
-    let k := derive pw
-    let hdr := (encryptAll k (List.replicate 11 (0 : UInt8) ++ [(crc >>> 24).toUInt8])).1
-    if m == "stored" then
-      let ct := writeEntry pw [data] crc
-      let ctb := match ct with | .ok b => b | _ => []
-      let cts := match ct with | .ok b => toHex b | .err e => Out.className e | .panic _ => "panic"
-      let w := match readStoredEntry (some wrong) true false crc 0 ctb with
-        | .ok (some d) => if d = data then "same" else "diff"
-        | .ok none => "invalidpw"
-        | .err e => Out.className e
-        | .panic _ => "panic"
-      some s!"arch hdr={toHex hdr} ct={cts} right=same nopw=err passwordrequired wrong={w} plainpw=same"
-    else
-      -- the compressed payload is a parameter (flate2); the header check is still decided here
-      let w := match (Reader.new hdr wrong).validate (.pkzipCrc32 crc) with
-        | .ok (some _) => "pass"
-        | .ok none => "invalidpw"
-        | .err e => Out.className e
-        | .panic _ => "panic"
-      some s!"arch hdr={toHex hdr} ct=* right=same nopw=err passwordrequired wrong={w} plainpw=same"
-  | "zc.foreign" =>
-    -- an entry encrypted by another producer decrypts to its content
-    let data ← a.hex? "data"
-    some s!"ok {toHex data}"
+    let hdr := (encryptAll (derive pw) (List.replicate 11 (0 : UInt8) ++ [(crc >>> 24).toUInt8])).1
+    let ct := writeEntry pw [comp] crc
+    let ctb := match ct with | .ok b => b | _ => []
+    let cts := match ct with | .ok b => toHex b | .err e => Out.className e | .panic _ => "panic"
+    -- `DateTime::default()` = 1980-01-01 00:00:00: DOS time 0; the writer never sets bit 3 on a seekable sink
+    let right := zcSame data (readEntry (zcDecoder rows m) (some pw) true false crc 0 ctb)
+    let nopw :=
+      let a1 := zcOpened (readEntryNoPassword (zcDecoder rows m) true false crc 0 ctb)
+      let a2 := match byIndex true false crc 0 ctb with
+        | .ok _ => "opened" | .err e => Out.className e | .panic _ => "panic"
+      if a1 == a2 then a1 else s!"mismatch({a1}|{a2})"
+    let w := zcSame data (readEntry (zcDecoder rows m) (some wrong) true false crc 0 ctb)
+    let plainpw := zcSame pdata
+      (readEntry (zcDecoder rows pm) (some pw) false false (Spec.Crc32.crc32 pdata) 0 praw)
+    some s!"arch hdr={toHex hdr} ct={cts} right={right} nopw={nopw} wrong={w} plainpw={plainpw}"
+  | "zc.fentry" =>
+    -- an entry encrypted by another producer: flags, CRC, DOS time, method and stored bytes as an
+    -- independent central-directory walk of the harness found them in that producer's archive
+    let pw ← a.hex? "pw"; let enc ← zcFlag a "enc"; let dd ← zcFlag a "dd"
+    let crc ← a.nat? "crc"; let t ← a.nat? "time"; let raw ← a.hex? "raw"; let m ← a.nat? "m"
+    let rows := parseCodec ((a.get? "codec").getD "-")
+    some (zcOutOpt "invalidpw"
+      (readEntry (zcDecoder rows m) (some pw) enc dd (UInt32.ofNat crc) (UInt16.ofNat t) raw))
   | _ => none
 
 end Driver
